@@ -113,6 +113,14 @@ def step (markersFirst : Bool) (univ : List Nat) (s : Sys) (a : Nat) : Act → O
       | .deleting _ _ => some { s with gc := .done }
       | _ => none
 
+/-- `append_files` of a PRE-BUILT file: it already exists on storage and belongs to nobody; the transaction registers a marker for it
+and owns it from now on (its age is what it is). Deliberately NOT an action of `step`: the safety theorem holds for transactions
+whose files are fresh (registered before they are written); with adoption during a run it does not (`late_adoption_refuted`). -/
+def adopt (s : Sys) (a f : Nat) : Option Sys :=
+  match s.tx a, s.files f with
+  | .active, some st => if st.owner = 0 ∧ st.exists_ then some (setFile s f (some { st with marker := true, owner := a })) else none
+  | _, _ => none
+
 /-- initial state: some committed files and some orphans on storage, any of them possibly old; nobody started -/
 def init (files : Nat → Option FileSt) (committed : List Nat) : Sys :=
   { files := files, committed := committed, tx := fun _ => .active, gc := .start, running := false, deleted := [], used := [] }
